@@ -15,12 +15,17 @@ META = {
              "reused this holds in both write modes although immediate-write mode releases twice; closed counterexamples "
              "lost_update_with_reset (3 calls, ID reuse + double release), lost_update_read_first, lost_update_write_late, "
              "stale_object_not_linearizable (delete racing an increment that already fetched the object); classify_sound over five facts."),
-    "note": ("PARTIAL in one respect: for the repaired object re-check (fact rechecksObjectUnderGuard = yes) there is no theorem yet, so "
-             "the classification can be `violated` or `undetermined`, never `holds`; holds_partial proves linearizability of all "
-             "histories on one live object.  The model's calls are abstract read-modify-write functions Int -> Int (increment, set, "
-             "clear); the forced schedules drive IncrementInt64 only (the ten Increment bodies, PatchFields, Set, Uint32Slice*, "
-             "deleteHandler share the shape, which extract/c09.go checks syntactically).  The Go scheduler is driven, not enumerated. "
-             "Trusted: Lean kernel, extract/c09.go, harness/c09.go, sync.Cond semantics, C15."),
+    "note": ("The model's calls are abstract read-modify-write functions Int -> Int (increment, set, clear, set-if-absent, "
+             "set-if-present, delete); `holds` needs every body shape guarded (including: nothing is read from the object behind "
+             "Save, no decision comes from a test made before the guard), guard IDs never reused and the object re-check.  The "
+             "forced increment schedules drive IncrementInt64 (the ten Increment bodies, PatchFields, Set, Uint32Slice*, "
+             "deleteHandler share the shape, which extract/c09.go checks syntactically; the stress part rotates four variants); "
+             "conditional Sets and creating field patches are forced through their own hook points (mode setx).  Object identity "
+             "(Hv.Stale) is executed by the driver next to Hv.Lin in the fetch / del cases; what a re-opened swamp finds after "
+             "`reload` (delete entries written by the chronicler) is driver-level, Hv.Stale has no file.  In immediate-write mode "
+             "the harness starts a call's file writer only when no earlier writer is pending (hook save.released), so the "
+             "'second writer is skipped because one is active' interleaving is not exercised.  The Go scheduler is driven, not "
+             "enumerated.  Trusted: Lean kernel, extract/c09.go, harness/c09.go + c09set.go, sync.Cond semantics, C15."),
     "design_ref": "§8 C09",
 }
 
@@ -31,17 +36,91 @@ FINDINGS = {
                                          "still carries DeletedAt and the acknowledged increment is written as a delete (gone after reload)",
     "C09-lost-update-guard-id-reuse": "guard IDs restart when the queue empties and immediate-write mode releases twice: a stale release "
                                       "frees a later holder and two increments read the same value",
-    "C09-read-outside-guard": "a body reads the record before StartTreasureGuard",
+    "C09-read-outside-guard": "a body reads the record before StartTreasureGuard (gateway Set: the existence tests behind "
+                              "Overwrite=false / CreateIfNotExist=false are made before the treasure is guarded, so two conditional "
+                              "Sets both write, or a Set without CreateIfNotExist re-creates a key deleted meanwhile)",
     "C09-write-outside-guard": "a body writes / saves the record after ReleaseTreasureGuard",
+    "C09-response-read-after-save": "the Increment bodies build their metadata response (createMetaForIncrementResponse) behind obj.Save(id): "
+                                    "with write interval 0 SaveFunction has released the guard by then, and the response carries the "
+                                    "metadata of whoever took the record next",
 }
 
 INC = {"A": 1, "B": 10, "C": 100, "D": 1000}
+
+
+def setx_violated(ops, impl):
+    """mode setx: brute-force linearizability, per key, of conditional Sets / deletes / reads on "x" and of creating
+    field patches / deletes / reads on "p".  A synchronous op occupies one instant, a spawned op the interval [spawn, go]."""
+    import itertools
+    calls, open_ = [], {}
+    for i, (op, line) in enumerate(zip(ops, impl)):
+        f, r = op.split(), line.split()
+        if "stuck" in line or "hang" in line:
+            return "request hangs at `%s`" % op
+        if f[0] in ("seta", "setx") and len(r) == 2:
+            calls.append((f[0], int(f[1]), r[1], i, i))
+        elif f[0] in ("del", "pdel", "pinc") and len(r) == 2:
+            calls.append((f[0], 0, r[1], i, i))
+        elif f[0] == "get" and len(r) == 2:
+            calls.append(("get", 0, r[1][2:], i, i))
+        elif f[0] == "pget" and len(r) == 2:
+            calls.append(("pget", 0, r[1][2:], i, i))
+        elif f[0] == "spawn":
+            a = int(f[3]) if len(f) > 3 else 0
+            if " done " in line:
+                calls.append((f[2], a, r[2], i, i))
+            else:
+                open_[f[1]] = (f[2], a, i)
+        elif f[0] == "go" and f[1] in open_ and " done " in line:
+            k, a, i0 = open_.pop(f[1])
+            calls.append((k, a, r[2], i0, i))
+
+    def apply(c, v):
+        k, a, resp = c[0], c[1], c[2]
+        if k == "seta":
+            return (resp == "WROTE", a) if v is None else (resp == "UNCHANGED", v)
+        if k == "setx":
+            return (resp == "NOT_FOUND", v) if v is None else (resp == "WROTE", a)
+        if k in ("del", "pdel"):
+            return (resp == "NOT_FOUND", None) if v is None else (resp == "DELETED", None)
+        if k == "pinc":
+            return (resp == "CREATED", 1) if v is None else (resp == "PATCHED", v + 1)
+        return (resp == ("absent" if v is None else str(v)), v)
+
+    for key, kinds in (("x", ("seta", "setx", "del", "get")), ("p", ("pinc", "pdel", "pget"))):
+        cs = [c for c in calls if c[0] in kinds]
+        if len(cs) > 8:
+            continue
+        found = False
+        for perm in itertools.permutations(range(len(cs))):
+            ok = True
+            for x in range(len(perm)):
+                for y in range(x + 1, len(perm)):
+                    if cs[perm[y]][4] < cs[perm[x]][3]:
+                        ok = False
+            if not ok:
+                continue
+            v = None
+            for idx in perm:
+                good, v = apply(cs[idx], v)
+                if not good:
+                    ok = False
+                    break
+            if ok:
+                found = True
+                break
+        if not found:
+            return "no serial order of %s on key %s explains the responses (a decision was taken outside the record guard)" % \
+                (["%s(%s)->%s" % (c[0], c[1], c[2]) for c in cs], key)
+    return None
 
 
 def spec_violated(rep):
     ops, impl = rep["ops"], rep["impl"]
     head = ops[0].split() if ops else []
     mode = head[2] if len(head) > 2 else ""
+    if mode == "setx":
+        return setx_violated(ops[1:], impl[1:])
     written, deleted = set(), False
     for op, line in zip(ops[1:], impl[1:]):
         f = op.split()
@@ -59,7 +138,7 @@ def spec_violated(rep):
             deleted = True
             written = set()
             continue
-        m = re.match(r"(\w):(\S+)(?: r=(-?\d+))? q=\[[^\]]*\] c=-?\d+ v=(\S+)", line)
+        m = re.match(r"(\w):(\S+)(?: r=(-?\d+))?(?: by=(\w*))? q=\[[^\]]*\] c=-?\d+ v=(\S+)", line)
         if f[0] == "reload":
             mm = re.match(r"reload v=(\S+)", line)
             if mm and head[3] != "m" and written and mm.group(1) == "absent":
@@ -67,7 +146,9 @@ def spec_violated(rep):
             continue
         if not m:
             continue
-        t, state, r, v = m.groups()
+        t, state, r, by, v = m.groups()
+        if by is not None and r is not None and by != t:
+            return "call %s answered with the metadata stamped by %s (UpdatedBy=%s): its response was read after it let go of the record" % (t, by, by)
         if state in ("3", "3w", "4", "5"):
             written.add(t)
         base = 0 if deleted else 5
@@ -84,7 +165,7 @@ def run(ctx):
     K.lean_verdict(ctx)
     corrs = []
     if K.build_hx(ctx) and K.build_drv(ctx):
-        args = ["%s=%s" % (k, facts.get(k, "unknown")) for k in ("resetsIdOnEmpty", "releasesGuardWhenImmediate")]
+        args = ["%s=%s" % (k, facts.get(k, "unknown")) for k in ("resetsIdOnEmpty", "releasesGuardWhenImmediate", "rechecksObjectUnderGuard", "setTestsExistenceUnderGuard", "bodyShape")]
         c = K.correspondence(ctx, "C09", args, timeout=900)
         corrs.append(("C09", args, c))
     else:
@@ -113,7 +194,11 @@ def run(ctx):
               "record value) in three configurations (persistent write interval 0 / 3600 s, in-memory), preceded by the ID-reuse witness "
               "schedule in every configuration, a double-release-with-waiters schedule and the delete/increment object race; stress = W "
               "goroutines x N increments over K keys (responses per key must be 1..n, final = n); mixed = 3 clients x 4 random "
-              "set/inc/get on one key with a Wing-Gong linearizability search over the client-visible history.  Non-trivial = >= 3 ops."),
+              "set / conditional set (Overwrite=false, CreateIfNotExist=false) / delete / inc / get on one key with a Wing-Gong "
+              "linearizability search over the client-visible history; setx = forced schedules of conditional Sets parked at hook "
+              "gw.set.tested (after the gateway's unguarded existence tests) around synchronous conditional Sets, deletes and reads, "
+              "model = Hv.Lin calls with set-if-absent / set-if-present / delete bodies, oracle = brute-force linearizability.  "
+              "Non-trivial = >= 3 ops."),
         samples=samples,
         evaluations=len(c.ops),
         distinct_nontrivial=K.distinct_cases(c),
